@@ -12,7 +12,11 @@ Inductive pval :=
 | VZs (l : list Z)                       (* a tuple of ints *)
 | VDims (l : list dim)                   (* a list of parsed dims *)
 | VSingle (m : alist Z)                  (* dict: axis name -> size *)
-| VArgs (m : alist Z).                   (* dict: argument name -> value *)
+| VArgs (m : alist Z)                    (* dict: argument name -> value *)
+| VVariadic (m : alist (bool * list Z))  (* dict: variadic name -> (was broadcastable, shape) *)
+| VPair (a b : pval)                     (* a 2-tuple *)
+| VCls (iv : option nat) (dl : list dim) (* the annotation class: .index_variadic, .dims *)
+| VObj (sh : list Z).                    (* the array: .shape *)
 
 Inductive pexpr :=
 | PVar (x : string)
@@ -25,7 +29,11 @@ Inductive pexpr :=
 | PTypeIs (e : pexpr) (cls : string)     (* type(e) is cls *)
 | PAdd (a b : pexpr)
 | PLen (e : pexpr)
-| PCall0 (f : string).                   (* get_treepath_memo() *)
+| PCall0 (f : string)                    (* get_treepath_memo() *)
+| PLt (a b : pexpr) | PSub (a b : pexpr) | PNeg (a : pexpr)
+| PSlice (e : pexpr) (lo hi : option pexpr)     (* e[lo:hi] *)
+| PIndex (e i : pexpr)                          (* e[i] on a list of dims *)
+| PTuple2 (a b : pexpr).
 
 Inductive pstmt :=
 | SPass
@@ -36,7 +44,10 @@ Inductive pstmt :=
 | SAssert (c : pexpr)
 | SForZip (x y : string) (a b : pexpr) (body : list pstmt)              (* for x, y in zip(a, b): body *)
 | STryKey (x d : string) (k : pexpr) (onmiss orelse : list pstmt)       (* try: x = d[k] / except KeyError: onmiss / else: orelse *)
-| SEvalSym (x : string) (src : pexpr) (argd sd : string).               (* the two-stage eval of a symbolic axis; NameError -> AnnotationError *)
+| SEvalSym (x : string) (src : pexpr) (argd sd : string)                (* the two-stage eval of a symbolic axis; NameError -> AnnotationError *)
+| SCallAssign (x f : string) (args : list pexpr)                        (* x = f(args): f is another translated function *)
+| STryKey2 (x1 x2 d : string) (k : pexpr) (onmiss orelse : list pstmt)  (* try: x1, x2 = d[k] / except KeyError: onmiss / else: orelse *)
+| STryBroadcast (x : string) (a b : pexpr) (onfail : list pstmt).       (* try: x = np.broadcast_shapes(a, b) / except ValueError: onfail *)
 
 Definition penv := string -> option pval.
 Definition upd (env : penv) (x : string) (v : pval) : penv := fun y => if String.eqb x y then Some v else env y.
@@ -44,8 +55,18 @@ Definition upd (env : penv) (x : string) (v : pval) : penv := fun y => if String
 Inductive pres := RVal (v : pval) | RExn (e : exn).
 Inductive outcome := ONormal (env : penv) | OReturn (v : pval) (env : penv) | ORaise (e : exn) (env : penv).
 
+Definition norm_idx (n x : Z) : Z := if (x <? 0)%Z then Z.max (n + x) 0 else Z.min x n.
+(* Python's l[lo:hi] (step 1) *)
+Definition pyslice {A} (l : list A) (lo hi : option Z) : list A :=
+  let n := Z.of_nat (length l) in
+  let a := match lo with None => 0%Z | Some x => norm_idx n x end in
+  let b := match hi with None => n | Some x => norm_idx n x end in
+  if (b <=? a)%Z then [] else firstn (Z.to_nat (b - a)) (skipn (Z.to_nat a) l).
+
 Section Interp.
 Variables (lbl : option string) (st : symtab).
+(* another translated function: result and the final values of its parameters (dictionaries are passed by reference) *)
+Variable call : string -> list pval -> option (pres * list pval).
 
 Definition dim_attr (d : dim) (f : string) : pres :=
   match d, f with
@@ -82,9 +103,17 @@ Fixpoint evale (env : penv) (e : pexpr) : pres :=
   | PNone => RVal VNone
   | PGlobal g => if String.eqb g "_anonymous_dim" then RVal (VDim DAnon)
                  else if String.eqb g "_anonymous_variadic_dim" then RVal (VDim DVarAnon) else RExn OtherExc
-  | PAttr a f => match evale env a with RVal (VDim d) => dim_attr d f | RVal _ => RExn OtherExc | r => r end
+  | PAttr a f => match evale env a with
+                 | RVal (VDim d) => dim_attr d f
+                 | RVal (VCls iv dl) =>
+                     if String.eqb f "index_variadic" then RVal (match iv with None => VNone | Some i => VZ (Z.of_nat i) end)
+                     else if String.eqb f "dims" then RVal (VDims dl) else RExn OtherExc
+                 | RVal (VObj sh) => if String.eqb f "shape" then RVal (VZs sh) else RExn OtherExc
+                 | RVal _ => RExn OtherExc
+                 | r => r
+                 end
   | PIs a b => match evale env a, evale env b with
-               | RVal (VDim DAnon), RVal (VDim DAnon) | RVal (VDim DVarAnon), RVal (VDim DVarAnon) => RVal (VB true)
+               | RVal (VDim DAnon), RVal (VDim DAnon) | RVal (VDim DVarAnon), RVal (VDim DVarAnon) | RVal VNone, RVal VNone => RVal (VB true)
                | RVal _, RVal _ => RVal (VB false)
                | RExn e, _ => RExn e | _, RExn e => RExn e
                end
@@ -119,6 +148,59 @@ Fixpoint evale (env : penv) (e : pexpr) : pres :=
   | PCall0 f => if String.eqb f "get_treepath_memo"
                 then match lbl with Some l => RVal (VS l) | None => RExn AnnotationErr end
                 else RExn OtherExc
+  | PLt a b => match evale env a, evale env b with
+               | RVal (VZ x), RVal (VZ y) => RVal (VB (x <? y)%Z)
+               | RVal _, RVal _ => RExn OtherExc
+               | RExn e, _ => RExn e | _, RExn e => RExn e
+               end
+  | PSub a b => match evale env a, evale env b with
+                | RVal (VZ x), RVal (VZ y) => RVal (VZ (x - y))
+                | RVal _, RVal _ => RExn OtherExc
+                | RExn e, _ => RExn e | _, RExn e => RExn e
+                end
+  | PNeg a => match evale env a with RVal (VZ x) => RVal (VZ (- x)) | RVal _ => RExn OtherExc | r => r end
+  | PSlice a lo hi =>
+      let bound (o : option pexpr) : option (option Z) + exn :=
+          match o with
+          | None => inl (Some None)
+          | Some e => match evale env e with RVal (VZ z) => inl (Some (Some z)) | RVal VNone => inl (Some None) | RVal _ => inl None | RExn ex => inr ex end
+          end in
+      match evale env a, bound lo, bound hi with
+      | RExn ex, _, _ => RExn ex
+      | _, inr ex, _ => RExn ex
+      | _, _, inr ex => RExn ex
+      | RVal (VZs l), inl (Some x), inl (Some y) => RVal (VZs (pyslice l x y))
+      | RVal (VDims l), inl (Some x), inl (Some y) => RVal (VDims (pyslice l x y))
+      | _, _, _ => RExn OtherExc
+      end
+  | PIndex a i => match evale env a, evale env i with
+                  | RVal (VDims l), RVal (VZ z) =>
+                      if (z <? 0)%Z then RExn OtherExc
+                      else match nth_error l (Z.to_nat z) with Some d => RVal (VDim d) | None => RExn OtherExc end
+                  | RVal _, RVal _ => RExn OtherExc
+                  | RExn e, _ => RExn e | _, RExn e => RExn e
+                  end
+  | PTuple2 a b => match evale env a, evale env b with
+                   | RVal x, RVal y => RVal (VPair x y)
+                   | RExn e, _ => RExn e | _, RExn e => RExn e
+                   end
+  end.
+
+Fixpoint evals (env : penv) (l : list pexpr) : list pval + exn :=
+  match l with
+  | [] => inl []
+  | e :: r => match evale env e with
+              | RExn ex => inr ex
+              | RVal v => match evals env r with inl vs => inl (v :: vs) | inr ex => inr ex end
+              end
+  end.
+
+(* by-reference parameters: after a call, a variable passed as an argument holds what the callee left in that parameter *)
+Fixpoint write_back (env : penv) (args : list pexpr) (outs : list pval) : penv :=
+  match args, outs with
+  | PVar y :: ar, v :: vr => write_back (upd env y v) ar vr
+  | _ :: ar, _ :: vr => write_back env ar vr
+  | _, _ => env
   end.
 
 Definition truthy (r : pres) : option bool + exn :=
@@ -148,6 +230,7 @@ Fixpoint exec (s : pstmt) (env : penv) {struct s} : outcome :=
   | SSetItem d k v =>
       match env d, evale env k, evale env v with
       | Some (VSingle m), RVal (VS kk), RVal (VZ z) => ONormal (upd env d (VSingle (aset m kk z)))
+      | Some (VVariadic m), RVal (VS kk), RVal (VPair (VB b) (VZs l)) => ONormal (upd env d (VVariadic (aset m kk (b, l))))
       | _, RExn ex, _ => ORaise ex env
       | _, _, RExn ex => ORaise ex env
       | _, _, _ => ORaise OtherExc env
@@ -199,6 +282,37 @@ Fixpoint exec (s : pstmt) (env : penv) {struct s} : outcome :=
       | RExn ex, _, _ => ORaise ex env
       | _, _, _ => ORaise OtherExc env
       end
+  | SCallAssign x f args =>
+      match evals env args with
+      | inr ex => ORaise ex env
+      | inl vs =>
+          match call f vs with
+          | Some (RVal v, outs) => ONormal (upd (write_back env args outs) x v)
+          | Some (RExn ex, outs) => ORaise ex (write_back env args outs)
+          | None => ORaise OtherExc env
+          end
+      end
+  | STryKey2 x1 x2 d k onmiss orelse =>
+      match env d, evale env k with
+      | Some (VVariadic m), RVal (VS kk) =>
+          match aget m kk with
+          | Some (b, l) => exec_list orelse (upd (upd env x1 (VB b)) x2 (VZs l))
+          | None => exec_list onmiss env
+          end
+      | _, RExn ex => ORaise ex env
+      | _, _ => ORaise OtherExc env
+      end
+  | STryBroadcast x a b onfail =>
+      match evale env a, evale env b with
+      | RVal (VZs la), RVal (VZs lb) =>
+          match bcast la lb with
+          | Some r => ONormal (upd env x (VZs r))
+          | None => exec_list onfail env
+          end
+      | RExn ex, _ => ORaise ex env
+      | _, RExn ex => ORaise ex env
+      | _, _ => ORaise OtherExc env
+      end
   end.
 
 Fixpoint exec_list (l : list pstmt) (env : penv) : outcome :=
@@ -209,8 +323,22 @@ Fixpoint exec_list (l : list pstmt) (env : penv) : outcome :=
 End Interp.
 
 (* a function body: falling off the end returns None *)
-Definition run_body (lbl : option string) (st : symtab) (body : list pstmt) (env : penv) : outcome :=
-  match exec_list lbl st body env with ONormal env1 => OReturn VNone env1 | o => o end.
+Definition no_calls : string -> list pval -> option (pres * list pval) := fun _ _ => None.
+
+Definition run_body_with (call : string -> list pval -> option (pres * list pval)) (lbl : option string) (st : symtab) (body : list pstmt) (env : penv) : outcome :=
+  match exec_list lbl st call body env with ONormal env1 => OReturn VNone env1 | o => o end.
+Definition run_body := run_body_with no_calls.
+
+(* calling a translated function with positional arguments *)
+Fixpoint bind_params (params : list string) (vs : list pval) (env : penv) : penv :=
+  match params, vs with p :: pr, v :: vr => bind_params pr vr (upd env p v) | _, _ => env end.
+Definition call_fn (lbl : option string) (st : symtab) (params : list string) (body : list pstmt) (vs : list pval) : pres * list pval :=
+  let outs env := map (fun p => match env p with Some v => v | None => VNone end) params in
+  match run_body lbl st body (bind_params params vs (fun _ => None)) with
+  | OReturn v env => (RVal v, outs env)
+  | ORaise e env => (RExn e, outs env)
+  | ONormal env => (RVal VNone, outs env)
+  end.
 
 (* ---------- running the generated function on model data, rendered for the correspondence check ---------- *)
 Definition env_of (dl : list dim) (sh : list Z) (sm args : alist Z) : penv :=
